@@ -1,4 +1,5 @@
 import DadiVerif.Lemmas.FileReaders
+import DadiVerif.Lemmas.FileConstruct
 /-!
 # C14: the written text seen as lines, and what the readers make of each line
 
@@ -393,23 +394,45 @@ theorem splitWs_maskLine (m : List Bool) : splitWs (term (joinWith SP (m.map fmt
 /-! ## constructor step -/
 
 theorem construct_marr (shape : List Nat) (data : List Str) (mask : List Bool) (mc folded cf : Bool) (p : Option (List Str))
-    (hd : data.length = prodL shape) (hm : mask.length = data.length) (hp : ∀ l, p = some l → l.length = shape.length) :
+    (hd : data.length = prodL shape) (hm : mask.length = data.length) (hp : ∀ l, p = some l → l.length = shape.length)
+    (hne : mc = true → data ≠ []) :
     construct (.arr shape data) (.marr mask) (.bool mc) (.bool folded) (.bool cf) (labelsVal p) .none
       = some { shape := shape, data := data, mask := if mc then maskCorners mask else mask, folded := folded,
                popIds := p, extrapX := none } := by
-  cases p with
-  | none => simp [construct, labelsVal, hd, hm]
-  | some l => simp [construct, labelsVal, hd, hm, hp l rfl]
+  have hz := zipWith_or_false_right' data.length mask hm
+  have hc : ctorCorners mc mask = some (if mc then maskCorners mask else mask) := by
+    cases mc with
+    | false => rfl
+    | true =>
+      have hmne : mask ≠ [] := by
+        intro e; rw [e] at hm; exact hne rfl (List.length_eq_zero_iff.mp hm.symm)
+      simp [ctorCorners, hmne]
+  have hpp : ctorPopIds (labelsVal p) none shape.length = some p := by
+    cases p with
+    | none => rfl
+    | some l => simp [ctorPopIds, labelsVal, hp l rfl]
+  rw [hd] at hz
+  simp [construct, baseOf, hd, ctorMask, hm, ownMaskOf, hz, ctorFolded, hpp, ctorExtrap, asNum, hc]
 
 theorem construct_nomask (shape : List Nat) (data : List Str) (mc folded cf : Bool) (p : Option (List Str))
-    (hd : data.length = prodL shape) (hp : ∀ l, p = some l → l.length = shape.length) :
+    (hd : data.length = prodL shape) (hp : ∀ l, p = some l → l.length = shape.length) (hne : mc = true → data ≠ []) :
     construct (.arr shape data) .none (.bool mc) (.bool folded) (.bool cf) (labelsVal p) .none
       = some { shape := shape, data := data,
                mask := if mc then maskCorners (List.replicate data.length false) else List.replicate data.length false,
                folded := folded, popIds := p, extrapX := none } := by
-  cases p with
-  | none => simp [construct, labelsVal, hd]
-  | some l => simp [construct, labelsVal, hd, hp l rfl]
+  have hc : ctorCorners mc (List.replicate data.length false)
+      = some (if mc then maskCorners (List.replicate data.length false) else List.replicate data.length false) := by
+    cases mc with
+    | false => rfl
+    | true =>
+      have hl : data.length ≠ 0 := fun e => hne rfl (List.length_eq_zero_iff.mp e)
+      simp [ctorCorners, hl]
+  have hpp : ctorPopIds (labelsVal p) none shape.length = some p := by
+    cases p with
+    | none => rfl
+    | some l => simp [ctorPopIds, labelsVal, hp l rfl]
+  rw [hd] at hc
+  simp [construct, baseOf, hd, ctorMask, ownMaskOf, ctorFolded, hpp, ctorExtrap, asNum, hc]
 
 /-- what `from_file` makes of the mask line the writer produced -/
 theorem mask_step (n : Nat) (mask : List Bool) (hm : mask.length = n) :
